@@ -34,3 +34,35 @@ reg("C03",
     "sequence is compared with the uniform law on the product of multiset permutations (all present, all equal). " + EXPL,
     "exactness relies on the generators drawing only through the stdlib random instance's integer source; large "
     "sequences are only sampled (chi-square at p<1e-9)")
+
+reg("C05",
+    "property-based testing (Hypothesis) with a passive spy on the raw weighted draw; existence-of-decomposition predicate as fallback; seeded chi-square for the weights",
+    "Structure (length, tuple entries, arity, non-negativity, divisibility), minimal perturbation (exact stub counts "
+    "added per topology, never a removal) and usability (empirical loader, fast generator) are asserted on every "
+    "generated distribution/size/N/seed; key frequencies by chi-square at p<1e-9. " + EXPL,
+    "the minimal-perturbation clause is exact when the draw goes through random.choices (observed, not altered)")
+
+reg("C06",
+    "property-based testing (Hypothesis) against closed-form tables; chi-square for the sampling-mode marginal loader; differential check direct construction vs. dispatcher",
+    "Every loader's .jdd is compared entry by entry (rel. 1e-9) with the law its inputs describe, through the class "
+    "constructor and the type-dispatching entry point (enum and string). " + EXPL,
+    "upper degree bound accepted as exclusive or inclusive; marginal/function results compared after normalisation")
+
+reg("C07",
+    "property-based testing (Hypothesis) against an independent enumeration of all degree splits",
+    "Mass per overall degree, the within-degree split ratios, total 1, and the delta loader's pure first-topology "
+    "degrees are compared (rel. 1e-9) with a reference enumeration for generated degree functions, probability "
+    "vectors, ranges and targets; both construction paths. " + EXPL,
+    "upper end of the range accepted as exclusive or inclusive")
+
+reg("C08",
+    "property-based testing (Hypothesis) on generated clique covers (incl. covers produced by EECC); reference per-vertex counting",
+    "motif_sizes, the per-vertex count tuples, the relative-frequency table, the clique-size profile identity and "
+    "sample+generate with clique motifs are checked for covers with gaps in the size set, 0- and 1-based ids. " + EXPL,
+    "covers are contiguous in vertex ids and cover every vertex (documented input)")
+
+reg("C19",
+    "property-based testing (Hypothesis) against 40-digit mpmath closed forms (zeta, polylog) with a derived truncation tolerance",
+    "Values, non-negativity and normalisation (partial sums plus analytic tails) of the four factories are compared "
+    "with the exact formulas for generated parameters and degrees (Python and numpy ints). " + EXPL,
+    "tolerance derived from the library's own series stopping rule (first term < 1e-6)")
